@@ -412,6 +412,18 @@ func execIcpt(s spec, st *stats) *fail {
 			rejected = true
 			return
 		}
+		// an earlier life of every stream on the same interceptor: the same media and FEC SSRC negotiated with
+		// another FEC payload type, one full batch sent, then unbound (a renegotiation that renumbers payload
+		// types); nothing of it may show in what follows
+		for _, is := range streams {
+			old := &interceptor.StreamInfo{SSRC: is.ssrc, PayloadTypeForwardErrorCorrection: is.fecPT ^ 0x15, SSRCForwardErrorCorrection: is.fecSSRC}
+			w := ic.BindLocalStream(old, &hk.RTPSink{})
+			for i := 0; i < s.K; i++ {
+				h := rtp.Header{Version: 2, PayloadType: 96, SSRC: is.ssrc, SequenceNumber: uint16(30000 + i), Timestamp: uint32(i)}
+				_, _ = w.Write(&h, []byte{1, 2, 3, byte(i)}, interceptor.Attributes{})
+			}
+			ic.UnbindLocalStream(old)
+		}
 		for _, is := range streams {
 			is.sink = &hk.RTPSink{}
 			is.w = ic.BindLocalStream(&interceptor.StreamInfo{SSRC: is.ssrc, PayloadTypeForwardErrorCorrection: is.fecPT,
